@@ -7,9 +7,10 @@ open StepModel StepModel.IStream StepModel.P21 StepModel.P21.Lemmas StepModel.P2
 variable {F : Type}
 
 /-- `GetLiteralStr` on a literal of the string grammar followed by something that is no apostrophe -/
-theorem getLiteralStr_tok (b : List Byte) (hb : StringBody b) (l : List Byte) (sk : Bool) (c : Byte) (u : List Byte) (hc : c ≠ 39) :
-    getLiteralStr (G l (39 :: (b ++ 39 :: c :: u)) sk) .null =
-      (39 :: (b ++ [39]), G (39 :: (b.reverse ++ 39 :: l)) (c :: u) sk, .null) := by
+theorem getLiteralStr_tok (b : List Byte) (hb : StringBody b) (l : List Byte) (sk : Bool) (c : Byte) (u : List Byte) (hc : c ≠ 39)
+    (e : Sev := .null) :
+    getLiteralStr (G l (39 :: (b ++ 39 :: c :: u)) sk) e =
+      (39 :: (b ++ [39]), G (39 :: (b.reverse ++ 39 :: l)) (c :: u) sk, e) := by
   obtain ⟨e1, e2⟩ := litLoop_body b hb [39] (39 :: c :: u) rfl
   have hll : litLoop [39] true (b ++ 39 :: c :: u) = (39 :: (b.reverse ++ [39]), c :: u, false, false) := by
     rw [e1, litLoop_quote, e2]
@@ -30,18 +31,18 @@ inductive Bal : List Byte → Prop where
 
 /-- the body loop of `PushPastImbedAggr` on the rest of a balanced text: current character `x` (already taken), the
     stream behind it -/
-def BodyOK (k : Nat) (body : List Byte) : Prop :=
-  ∀ (f : Nat) (acc l rest : List Byte) (sk : Bool) (x : Byte) (xs : List Byte),
+def BodyOK (stop : Bool) (k : Nat) (body : List Byte) : Prop :=
+  ∀ (f : Nat) (acc l rest : List Byte) (sk : Bool) (x : Byte) (xs : List Byte) (e : Sev),
     body ++ 41 :: rest = x :: xs → body.length + 1 ≤ f →
-    pushPastAggr.body k f acc x (G (x :: l) xs sk) = .ok (acc ++ body ++ [41], G (41 :: (body.reverse ++ l)) rest sk)
+    pushPastAggr.body stop k f acc x (G (x :: l) xs sk) e = .ok (acc ++ body ++ [41], G (41 :: (body.reverse ++ l)) rest sk, e)
 
-def PushOK (k : Nat) (body : List Byte) : Prop :=
-  ∀ (l sp rest : List Byte) (sk : Bool), sp.all isSpace = true →
-    pushPastAggr k (G l (sp ++ 40 :: (body ++ 41 :: rest)) sk) =
-      .ok (40 :: (body ++ [41]), G (41 :: (body.reverse ++ 40 :: (sp.reverse ++ l))) rest sk)
+def PushOK (stop : Bool) (k : Nat) (body : List Byte) : Prop :=
+  ∀ (l sp rest : List Byte) (sk : Bool) (e : Sev), sp.all isSpace = true →
+    pushPastAggr stop k (G l (sp ++ 40 :: (body ++ 41 :: rest)) sk) e =
+      .ok (40 :: (body ++ [41]), G (41 :: (body.reverse ++ 40 :: (sp.reverse ++ l))) rest sk, e)
 
-theorem push_of_body (k : Nat) (body : List Byte) (h : BodyOK k body) : PushOK (k + 1) body := by
-  intro l sp rest sk hsp
+theorem push_of_body (stop : Bool) (k : Nat) (body : List Byte) (h : BodyOK stop k body) : PushOK stop (k + 1) body := by
+  intro l sp rest sk e hsp
   obtain ⟨x, xs, hx⟩ : ∃ x xs, body ++ 41 :: rest = x :: xs := by
     cases body with
     | nil => exact ⟨41, rest, rfl⟩
@@ -50,43 +51,43 @@ theorem push_of_body (k : Nat) (body : List Byte) (h : BodyOK k body) : PushOK (
   rw [show (G l (sp ++ 40 :: (body ++ 41 :: rest)) sk).ws = G (sp.reverse ++ l) (40 :: (body ++ 41 :: rest)) sk
     from ws_good l sp 40 _ sk hsp (by decide)]
   simp only [getInto_good, beq_self_eq_true, IStream.failed, Bool.or_self, Bool.not_false, Bool.and_self, if_true, hx]
-  have := h (xs.length + 3) [40] (40 :: (sp.reverse ++ l)) rest sk x xs hx (by
+  have := h (xs.length + 3) [40] (40 :: (sp.reverse ++ l)) rest sk x xs e hx (by
     have : (body ++ 41 :: rest).length = (x :: xs).length := by rw [hx]
     simp only [List.length_append, List.length_cons] at this; omega)
   simpa using this
 
-theorem bal_both : ∀ k : Nat,
-    (∀ body, Bal body → body.length ≤ k → BodyOK k body) ∧ (∀ body, Bal body → body.length ≤ k → PushOK (k + 1) body) := by
+theorem bal_both (stop : Bool) : ∀ k : Nat,
+    (∀ body, Bal body → body.length ≤ k → BodyOK stop k body) ∧ (∀ body, Bal body → body.length ≤ k → PushOK stop (k + 1) body) := by
   intro k
   induction k with
   | zero =>
-    have hb : ∀ body, Bal body → body.length ≤ 0 → BodyOK 0 body := by
+    have hb : ∀ body, Bal body → body.length ≤ 0 → BodyOK stop 0 body := by
       intro body _ hlen
       have : body = [] := by cases body <;> simp_all
       subst this
-      intro f acc l rest sk x xs hx hf
+      intro f acc l rest sk x xs e hx hf
       simp only [List.nil_append, List.cons.injEq] at hx
       obtain ⟨rfl, rfl⟩ := hx
       match f, hf with
       | n + 1, _ =>
         unfold pushPastAggr.body
-        simp [pure, Except.pure]
-    exact ⟨hb, fun body hbal hlen => push_of_body 0 body (hb body hbal hlen)⟩
+        simp [pure, Except.pure, G_good]
+    exact ⟨hb, fun body hbal hlen => push_of_body stop 0 body (hb body hbal hlen)⟩
   | succ k ih =>
-    have hb : ∀ body, Bal body → body.length ≤ k + 1 → BodyOK (k + 1) body := by
+    have hb : ∀ body, Bal body → body.length ≤ k + 1 → BodyOK stop (k + 1) body := by
       intro body hbal
       induction hbal with
       | nil =>
-        intro _ f acc l rest sk x xs hx hf
+        intro _ f acc l rest sk x xs e hx hf
         simp only [List.nil_append, List.cons.injEq] at hx
         obtain ⟨rfl, rfl⟩ := hx
         match f, hf with
         | n + 1, _ =>
           unfold pushPastAggr.body
-          simp [pure, Except.pure]
+          simp [pure, Except.pure, G_good]
       | plain c t h40 h41 hp ht iht =>
         have h39 : c ≠ 39 := plainc_ne39 hp
-        intro hlen f acc l rest sk x xs hx hf
+        intro hlen f acc l rest sk x xs e hx hf
         simp only [List.cons_append, List.cons.injEq] at hx
         obtain ⟨rfl, rfl⟩ := hx
         obtain ⟨y, ys, hy⟩ : ∃ y ys, t ++ 41 :: rest = y :: ys := by
@@ -98,14 +99,17 @@ theorem bal_both : ∀ k : Nat,
           have e41 : (c != 41) = true := by simpa using h41
           have e40 : (c == 40) = false := by simpa using h40
           have e39 : (c == 39) = false := by simpa using h39
+          have e59 : (c == 59) = false := by
+            have : c ≠ 59 := by simp only [plainc, Bool.and_eq_true, bne_iff_ne, ne_eq] at hp; exact hp.1.1.1
+            simpa using this
           unfold pushPastAggr.body
-          simp only [G_good, e41, Bool.and_self, if_true, e40, e39, Bool.false_eq_true, if_false, hy, getInto_good]
-          have := iht (by simp only [List.length_cons] at hlen; omega) n (acc ++ [c]) (c :: l) rest sk y ys hy
+          simp only [G_good, e41, Bool.and_self, if_true, e40, e39, e59, Bool.and_false, Bool.false_eq_true, if_false, hy, getInto_good]
+          have := iht (by simp only [List.length_cons] at hlen; omega) n (acc ++ [c]) (c :: l) rest sk y ys e hy
             (by simp only [List.length_cons] at hf; omega)
           rw [this]
           simp
       | str b t hsb ht hnq iht =>
-        intro hlen f acc l rest sk x xs hx hf
+        intro hlen f acc l rest sk x xs e hx hf
         simp only [List.cons_append, List.cons.injEq] at hx
         obtain ⟨rfl, rfl⟩ := hx
         obtain ⟨y, ys, hy, hy39⟩ : ∃ y ys, t ++ 41 :: rest = y :: ys ∧ y ≠ 39 := by
@@ -119,15 +123,15 @@ theorem bal_both : ∀ k : Nat,
           unfold pushPastAggr.body
           simp only [G_good, e41, Bool.and_self, if_true, e40, Bool.false_eq_true, if_false, beq_self_eq_true, putback_good]
           have e1 : b ++ 39 :: t ++ 41 :: rest = b ++ 39 :: y :: ys := by rw [← hy]; simp
-          rw [e1, getLiteralStr_tok b hsb l sk y ys hy39]
+          rw [e1, getLiteralStr_tok b hsb l sk y ys hy39 e]
           simp only [getInto_good]
           have := iht (by simp only [List.length_cons, List.length_append] at hlen; omega) n (acc ++ (39 :: (b ++ [39])))
-            (39 :: (b.reverse ++ 39 :: l)) rest sk y ys hy
+            (39 :: (b.reverse ++ 39 :: l)) rest sk y ys e hy
             (by simp only [List.length_cons, List.length_append] at hf; omega)
           rw [this]
           simp
       | nest inner t hi ht _ iht =>
-        intro hlen f acc l rest sk x xs hx hf
+        intro hlen f acc l rest sk x xs e hx hf
         simp only [List.cons_append, List.cons.injEq] at hx
         obtain ⟨rfl, rfl⟩ := hx
         obtain ⟨y, ys, hy⟩ : ∃ y ys, t ++ 41 :: rest = y :: ys := by
@@ -137,7 +141,7 @@ theorem bal_both : ∀ k : Nat,
         match f, hf with
         | n + 1, hf =>
           have e41 : ((40 : Byte) != 41) = true := by decide
-          have hpush := ih.2 inner hi (by simp only [List.length_cons, List.length_append] at hlen; omega) l [] (t ++ 41 :: rest) sk (by simp)
+          have hpush := ih.2 inner hi (by simp only [List.length_cons, List.length_append] at hlen; omega) l [] (t ++ 41 :: rest) sk e (by simp)
           simp only [List.nil_append, List.reverse_nil] at hpush
           unfold pushPastAggr.body
           simp only [G_good, e41, Bool.and_self, if_true, beq_self_eq_true, putback_good, bind, Except.bind]
@@ -145,19 +149,19 @@ theorem bal_both : ∀ k : Nat,
           rw [e1, hpush]
           simp only [hy, getInto_good]
           have := iht (by simp only [List.length_cons, List.length_append] at hlen; omega) n (acc ++ (40 :: (inner ++ [41])))
-            (41 :: (inner.reverse ++ 40 :: l)) rest sk y ys hy
+            (41 :: (inner.reverse ++ 40 :: l)) rest sk y ys e hy
             (by simp only [List.length_cons, List.length_append] at hf; omega)
           rw [this]
           simp
-    exact ⟨hb, fun body hbal hlen => push_of_body (k + 1) body (hb body hbal hlen)⟩
+    exact ⟨hb, fun body hbal hlen => push_of_body stop (k + 1) body (hb body hbal hlen)⟩
 
 /-- `PushPastImbedAggr` on `( balanced )` with enough fuel -/
-theorem pushPastAggr_bal (body : List Byte) (hb : Bal body) (fuel : Nat) (hf : body.length + 1 ≤ fuel)
-    (l sp rest : List Byte) (sk : Bool) (hsp : sp.all isSpace = true) :
-    pushPastAggr fuel (G l (sp ++ 40 :: (body ++ 41 :: rest)) sk) =
-      .ok (40 :: (body ++ [41]), G (41 :: (body.reverse ++ 40 :: (sp.reverse ++ l))) rest sk) := by
+theorem pushPastAggr_bal (stop : Bool) (body : List Byte) (hb : Bal body) (fuel : Nat) (hf : body.length + 1 ≤ fuel)
+    (l sp rest : List Byte) (sk : Bool) (hsp : sp.all isSpace = true) (e : Sev) :
+    pushPastAggr stop fuel (G l (sp ++ 40 :: (body ++ 41 :: rest)) sk) e =
+      .ok (40 :: (body ++ [41]), G (41 :: (body.reverse ++ 40 :: (sp.reverse ++ l))) rest sk, e) := by
   match fuel, hf with
-  | k + 1, hf => exact (bal_both k).2 body hb (by omega) l sp rest sk hsp
+  | k + 1, hf => exact (bal_both stop k).2 body hb (by omega) l sp rest sk e hsp
 
 theorem Passes.appS {a b : List Byte} (ha : Passes a) (hb : PassesS b) : PassesS (a ++ b) := by
   intro fuel c l x rest res hx h
@@ -202,11 +206,11 @@ theorem Bal.passes_paren {body : List Byte} (h : Bal body) : Passes (40 :: (body
     (PassesS.append_cons h.passesS (Passes.plain 41 (by decide)) (by decide))
 
 /-- `SCLundefined::STEPread` on an aggregate `( balanced )` followed by a delimiter: the raw text, no message -/
-theorem undefRead_aggr (lex : LexCfg) (body : List Byte) (hb : Bal body) (l : List Byte) (sk : Bool) (d : Byte) (rest : List Byte)
+theorem undefRead_aggr (lex : LexCfg) (stop : Bool) (body : List Byte) (hb : Bal body) (l : List Byte) (sk : Bool) (d : Byte) (rest : List Byte)
     (hd : d = 44 ∨ d = 41) :
-    undefRead lex (G l (40 :: (body ++ 41 :: d :: rest)) sk) =
+    undefRead lex stop (G l (40 :: (body ++ 41 :: d :: rest)) sk) =
       .ok (40 :: (body ++ [41]), G (41 :: (body.reverse ++ 40 :: l)) (d :: rest) sk, .null) := by
-  have hpush := pushPastAggr_bal body hb ((body ++ 41 :: d :: rest).length + 3) (by simp; omega) l [] (d :: rest) sk (by simp)
+  have hpush := pushPastAggr_bal stop body hb ((body ++ 41 :: d :: rest).length + 3) (by simp; omega) l [] (d :: rest) sk (by simp) .null
   simp only [List.nil_append, List.reverse_nil] at hpush
   have hdc : (d == 44 || d == 41) = true := by rcases hd with rfl | rfl <;> decide
   have hd40 : (d == 40) = false := by rcases hd with rfl | rfl <;> decide
@@ -236,7 +240,7 @@ theorem ElemRd.generic (env : Env F) (hcfg : env.lex.criSkipsComments = true) (h
   refine ⟨hbf, ⟨40, body ++ [41], rfl, by decide, by decide, by decide, by decide⟩, ?_⟩
   intro l sk d rest hd
   refine ⟨sk, Or.inl rfl, ?_⟩
-  have hu := undefRead_aggr env.lex body hb l sk d rest hd
+  have hu := undefRead_aggr env.lex env.cfg.rawValueStaysInRecord body hb l sk d rest hd
   show elemRead env .generic (G l (40 :: (body ++ [41]) ++ ([] ++ d :: rest)) sk) = _
   have e1 : 40 :: (body ++ [41]) ++ ([] ++ d :: rest) = 40 :: (body ++ 41 :: d :: rest) := by simp
   rw [e1, elemRead_at_tok env hagg _ l 40 _ sk (by decide) (by decide) (by decide) (by decide)]
